@@ -250,6 +250,7 @@ def adm_family(draw, max_sites=3):
     with_net = draw(st.integers(0, 4)) > 0
     models = []
     shared = []
+    split_ports = []
     for i in range(nsites):
         s = "abc"[i]
         name = ["RENC", "UKY", "LBNL"][i]
@@ -257,8 +258,16 @@ def adm_family(draw, max_sites=3):
         sw, ns, tps = _site(b, s, name, trunks=draw(st.integers(1, 2)), max_workers=2, max_comps=2)
         _annotate(b, [draw(st.sampled_from(DEL_IDS))], draw(st.sampled_from(["mixed", "all-both", "sparse"])),
                   multi_id=False, max_pools=1)
+        # split speaking: the site delegates the CAPACITY of some of its trunk ports (uplink bandwidth) while the
+        # network model delegates their LABELS (vlan ranges) - one speaker per delegation kind on a shared element
+        site_did = sorted({d for n in b.nodes for d in list((n.get("ld") or {})) + list((n.get("cd") or {}))}) or \
+            [draw(st.sampled_from(DEL_IDS))]
+        for tp in tps:
+            if draw(st.integers(0, 2)) == 0:
+                b.index[tp]["cd"] = {site_did[0]: _entry(draw, "Port", "C")}
+                split_ports.append(tp)
         models.append(b.desc())
-        shared.append((sw, ns, tps, {n: b.index[n] for n in [sw, ns] + tps}))
+        shared.append((sw, ns, tps, {n: {"cls": b.index[n]["cls"], "props": b.index[n]["props"]} for n in [sw, ns] + tps}))
     if with_net:
         b = _B(draw, "adm-net")
         did = draw(st.sampled_from(DEL_IDS))
@@ -294,6 +303,11 @@ def adm_family(draw, max_sites=3):
             b.edge(lnk, "connects", np_)
             b.edge(ns, "connects", np_)
         _annotate(b, [did], draw(st.sampled_from(["mixed", "all-both"])), multi_id=False, max_pools=1)
+        for tp in split_ports:          # the site speaks for the capacity of these ports, the network for labels
+            b.index[tp].pop("cd", None)
+            ld = b.index[tp].get("ld") or {}
+            if not ld or any(e.get("pool") or e.get("pool_id", "_") != "_" for e in ld.values()):
+                b.index[tp]["ld"] = {did: _entry(draw, "Port", "L")}
         models.append(b.desc())
     return {"models": models}
 
